@@ -412,3 +412,9 @@ Definition spec_Mjpeg : sformat := mkfmt "Mjpeg" "src/avtp/cvf/Mjpeg.c" "Avtp_Mj
   "Avtp_Mjpeg_Init" [].
 
 Definition all_specs : list sformat := [spec_CommonHeader; spec_Crf; spec_Rvf; spec_Udp; spec_Aaf; spec_Pcm; spec_AcfCommon; spec_Can; spec_CanBrief; spec_FlexRay; spec_Gpc; spec_Lin; spec_Most; spec_Ntscf; spec_Sensor; spec_SensorBrief; spec_Tscf; spec_Vss; spec_VssBrief; spec_Cvf; spec_H264; spec_Jpeg2000; spec_Mjpeg].
+
+Fixpoint find_spec (ss:list sformat) (n:string) : option sformat :=
+  match ss with
+  | [] => None
+  | s :: r => if String.eqb (sp_name s) n then Some s else find_spec r n
+  end.
